@@ -50,7 +50,7 @@ def run(ctx):
     ctx.trusted += ["the invariance theorems are about the model Obs/Gamma.v (tied to obs.py by C02's correspondence)"]
     ctx.assumptions += ["tolerance 2^-30 for pairs whose floating-point operations differ (scaling of data, added constant); identical otherwise"]
     ctx.copy_props()
-    common.tie_pycore(ctx, ["Tie_expand_deltas.v"])
+    common.tie_pycore(ctx, ["Tie_expand_deltas.v", "Tie_gap.v", "Tie_kwarg.v"])
 
     saved = (pe.Obs.S_global, pe.Obs.tau_exp_global, pe.Obs.N_sigma_global, dict(pe.Obs.S_dict), dict(pe.Obs.tau_exp_dict), dict(pe.Obs.N_sigma_dict))
 
